@@ -94,6 +94,16 @@ def _observe(job):
         reps.append(np.array([float(np.ravel(m.probability_density(rows.to_numpy()[i].copy()))[0]) for i in range(nrow)]))   # 1-D arrays
         reps.append(np.array([float(np.ravel(m.probability_density(rows.iloc[i][cols[::-1]]))[0]) for i in range(nrow)]))    # Series whose index is not in training order
         reps.append(np.asarray(m.probability_density(rows.iloc[::-1].copy()), dtype=float)[::-1])                  # reversed batch
+        # work buffers: the same array / frame object is evaluated, overwritten in place with the rows in reversed order, and evaluated again
+        buf = rows.to_numpy().copy()
+        m.probability_density(buf)
+        buf[:, :] = rows.to_numpy()[::-1]
+        reps.append(np.asarray(m.probability_density(buf), dtype=float)[::-1])
+        fbuf = rows.copy()
+        m.probability_density(fbuf)
+        for c in cols:
+            fbuf[c] = rows[c].to_numpy()[::-1]
+        reps.append(np.asarray(m.probability_density(fbuf), dtype=float)[::-1])
         far = pd.DataFrame({c: [1e9, -1e9] for c in cols})
         reps.append(np.asarray(m.probability_density(pd.concat([far, rows], ignore_index=True)), dtype=float)[2:])   # with far-out rows
         rec['rep'] = [flog(r).tolist() for r in reps]
